@@ -5,11 +5,13 @@ Proof: FP/Props/C03.lean — the kFlowDecomp MILP for k is feasible iff a k-path
 the box w <= w_max loses nothing (decomp_bound_wlog), k -> k+1 (decomp_monotone), the stop-search returns the
 minimum when the lower bound is valid (mfd_search_minimal / mfd_search_finds / mfd_solve_returns_min), the
 log2 and antichain lower bounds are valid (lb_log_valid, lb_antichain_valid, lowerboundK_valid), and a conserving
-non-negative flow always has a decomposition into at most |E| paths (flow_decomposition_exists, mfd_total), so the
-modelled solve() succeeds with the minimum (mfd_solve_succeeds).
+non-negative flow always has a decomposition into at most |E| paths - |E| + #constraints with subpath constraints
+(flow_decomposition_exists, mfd_total, mfd_total_constraints) -, so the modelled solve(), searching
+range(lb, |E| + #constraints + 1), succeeds with the minimum (mfd_solve_succeeds).
 Tie:
   K1  get_lowerbound_k() of the real class vs the Lean op `mfd.lowerbound` (width captured from the real
-      stDAG.get_width call; log term, max, exit/ValueError outcomes computed by Lean) + the antichain the code
+      stDAG.get_width call - made with ignored + synthetic edges; log term over non-ignored values, max, range end
+      computed by Lean) + the antichain the code
       itself extracts certifies the captured width (|A| = width, pairwise on no common path);
   K2  the LP of every kFlowDecomp model built inside MinFlowDecomp.solve equals Lean's kfdLP(inp.withK k);
   K3  search traces of MinFlowDecomp under injected solver statuses (machinery of props/c13.py);
@@ -28,8 +30,10 @@ THEOREMS = ["FP.Props.C03.kfd_complete", "FP.Props.C03.kfd_sound", "FP.Props.C03
             "FP.Props.C03.decomp_monotone", "FP.Props.C03.mfd_search_minimal", "FP.Props.C03.mfd_search_finds",
             "FP.Props.C03.lb_log_valid", "FP.Props.C03.lb_log_subset_sums", "FP.Props.C03.lb_antichain_valid",
             "FP.Props.C03.lowerboundK_valid", "FP.Props.C03.mfd_solve_returns_min",
-            "FP.Props.C03.flow_decomposition_exists", "FP.Props.C03.mfd_total", "FP.Props.C03.mfd_solve_succeeds",
+            "FP.Props.C03.flow_decomposition_exists", "FP.Props.C03.mfd_total",
+            "FP.Props.C03.mfd_total_constraints", "FP.Props.C03.coverable_necessary", "FP.Props.C03.mfd_solve_succeeds",
             "FP.Props.C03.lb_constraints_valid", "FP.Props.C03.search_range_too_small_witness",
+            "FP.Props.C03.search_range_regression", "FP.Props.C03.ignored_values_witness",
             "FP.Props.C03.mingenset_exit_witness",
             "FP.Props.C02.kfd_exact", "FP.Props.C13.search_sound", "FP.Props.C13.search_complete"]
 IMPORTS = ["FP.Props.C03", "FP.Props.C02", "FP.Props.C13"]
@@ -391,17 +395,24 @@ def real_lowerbound(ctx, inst, opts):
     return m, out
 
 
+def ignored_of(m):
+    return set(m.edges_to_ignore)
+
+
 def flows_of(m):
-    attr = m.flow_attr
-    return [qstr(d[attr]) for _, _, d in m.G.edges(data=True) if attr in d]
+    """flow values of the non-ignored edges of the internal graph that carry the attribute"""
+    attr, ign = m.flow_attr, ignored_of(m)
+    return [qstr(d[attr]) for u, v, d in m.G.edges(data=True) if attr in d and (u, v) not in ign]
 
 
 def lean_request(m, out, opts):
     return {"op": "mfd.lowerbound", "lowerbound_k": opts.get("lowerbound_k"), "flows": flows_of(m),
             "width": out["width"] if out["width"] is not None else 0,
+            "ignore_empty": len(ignored_of(m)) == 0,
             "use_mgs": bool(opts.get("use_min_gen_set_lowerbound", False)),
             "mgs": (out["mgs"][1] if out["mgs"] and out["mgs"][0] == "value" else None),
-            "use_scan": False, "scan": None, "num_edges": m.G.number_of_edges()}
+            "use_scan": False, "scan": None, "num_edges": m.G.number_of_edges(),
+            "num_constraints": len(m.subpath_constraints)}
 
 
 def strip(inst):
@@ -422,6 +433,8 @@ def antichain_link(ctx, m, out):
     rec = cap.widths[0]
     g = rec["graph"]
     ign = set(rec["ignore"])
+    if not set(g.source_sink_edges) <= ign:
+        return "get_width was called without the synthetic source/sink edges in its ignore list"
     wf = {e: 1 for e in g.edges() if e not in ign}
     cost, A = g.compute_max_edge_antichain(get_antichain=True, weight_function=wf)
     if cost != rec["width"] or len(A) != cost or len(set(A)) != len(A):
@@ -446,7 +459,7 @@ def antichain_link(ctx, m, out):
     return "width inflated by synthetic or flow-less edges"
 
 
-LINK_OK = ("certified", "n/a", "width inflated by synthetic or flow-less edges", "no width call")
+LINK_OK = ("certified", "n/a", "no width call")
 
 
 def k1_case(ctx, inst, opts, suite="K1.lowerbound"):
@@ -458,10 +471,12 @@ def k1_case(ctx, inst, opts, suite="K1.lowerbound"):
         ctx.disagree(suite, desc, "get_width was not called", None); return None
     model = ctx.driver.call(lean_request(m, out, opts))
     ctx.rep.cov["traces_validated_against_impl"] += 1
+    if out["mgs"] is not None and len(ignored_of(m)) > 0:
+        ctx.disagree(suite, desc, "MinGenSet bound computed although elements are ignored", None)
     impl = {"result": out["result"], "lb": out["lb"]}
     if out["result"] == "value":
         impl["hi"] = ctx.model_hi("MinFlowDecomp", m)
-    link = antichain_link(ctx, m, out) if out["result"] != "ValueError" else "n/a"
+    link = antichain_link(ctx, m, out) if (out["result"] == "value" and flows_of(m)) else "n/a"
     ctx.rep.count(suite, desc, nontrivial=(out["lb"] or 0) > 1 or bool(opts),
                   hist=[inst.get("origin", "edge"), out["result"], "antichain: " + (link if link in LINK_OK else "BROKEN")]
                   + sorted(opts) + (["ignore"] if inst.get("ignore") else []))
@@ -494,7 +509,7 @@ def run_k1(ctx):
         if it == 0 and out:
             ctx.rep.sample({"suite": "K1.lowerbound", "instance": strip(inst), "options": opts,
                             "lb": out["lb"], "width": out["width"]})
-    # no element carries the attribute: math.log2(0)
+    # no element carries the attribute: the log term is skipped (before fix 01f9777: math.log2(0) raised)
     for it in range(ctx.n(3, 20)):
         inst = node_instance(rng)
         inst["node_flow"] = []; inst["ignore"] = []; inst["constraints"] = []
@@ -505,6 +520,9 @@ def big_edge_instance(rng):
     nodes, edges = gen.dag(rng, n=rng.randint(4, 8), min_edges=4)
     wint = rng.random() < 0.6
     f, paths, ws = gen.flow_from_paths(rng, nodes, edges, weights=INT_W if wint else FLT_W, wtype=int if wint else float)
+    edges = [e for e in edges if f[e] > 0]          # strictly positive flow: edges no planted path uses are dropped
+    touched = {x for e in edges for x in e}
+    nodes = [v for v in nodes if v in touched]
     inst = {"cls": "MinFlowDecomp", "nodes": list(nodes), "edges": [list(e) for e in edges], "origin": "edge",
             "weight_type": "int" if wint else "float", "constraints": [], "coverage": "1", "ignore": [],
             "flow": [[u, v, qstr(f[(u, v)])] for (u, v) in edges]}
@@ -683,7 +701,8 @@ def run_k5(ctx):
     rng = ctx.rng
     thorough = not ctx.quick()
     shown = 0
-    # directed: more paths needed than there are edges (only possible with subpath constraints)
+    # directed regression (fix e0ac661): more paths needed than there are edges (only possible with subpath
+    # constraints); the minimum 13 lies in range(lb, |E| + #constraints + 1)
     inst = many_paths_instance()
     for opts in ([{"lowerbound_k": len(inst["edges"])}, {}] if thorough else [{"lowerbound_k": len(inst["edges"])}]):
         k5_case(ctx, inst, opts, None, suite="K5.minimum")
